@@ -324,17 +324,20 @@ class Net:
             self.udp_handler(tr, data, addr)
 
 
-class _VPolicy(asyncio.DefaultEventLoopPolicy):
+class VPolicy(asyncio.DefaultEventLoopPolicy):
     """Event loop policy whose new loops are VLoops (msmart.cli calls asyncio.run)."""
 
-    def __init__(self, net_factory: Callable[[], Net]) -> None:
+    def __init__(self, net_factory: Callable[[], Net], on_loop: Optional[Callable] = None) -> None:
         super().__init__()
         self._net_factory = net_factory
+        self._on_loop = on_loop
         self.loops: list = []
 
     def new_event_loop(self):
         loop = VLoop(self._net_factory())
         self.loops.append(loop)
+        if self._on_loop is not None:
+            self._on_loop(loop)
         return loop
 
 
